@@ -37,6 +37,10 @@ def gen_rule_model(rng, T):
     if not spec["rules"]:
         spec["rules"].append({"type": "additive", "attrs": {"equation": "S = A + B"}})
         checks.append(("repeat", "S", lambda r, p: r["A"] + r["B"]))
+    if rng.chance(1, 2):
+        # rules given with an explicit frequency (dt, a time) first, those without one (repeated) after them: the
+        # independent ones may be listed in any order
+        spec["rules"] = [r for r in spec["rules"] if "frequency" in r] + [r for r in spec["rules"] if "frequency" not in r]
     return spec, checks
 
 
